@@ -196,6 +196,12 @@ func closure(reg ociregistry.Interface, repo string, dg ociregistry.Digest, seen
 	data, _ := io.ReadAll(r)
 	mt := r.Descriptor().MediaType
 	r.Close()
+	if digest.FromBytes(data) != dg {
+		// retrievable means: its bytes come back
+		seen["manifest "+string(dg)] = false
+		*out = append(*out, "manifest "+string(dg)+" MISSING (other bytes are served under its digest)")
+		return
+	}
 	switch mt {
 	case ocispec.MediaTypeImageManifest:
 		var m ocispec.Manifest
@@ -207,11 +213,16 @@ func closure(reg ociregistry.Interface, repo string, dg ociregistry.Digest, seen
 		}
 		for _, d := range append(append([]ocispec.Descriptor{}, m.Layers...), m.Config) {
 			rb, err := reg.GetBlob(ctx, repo, d.Digest)
+			if err == nil {
+				content, rerr := io.ReadAll(rb)
+				rb.Close()
+				if rerr != nil || digest.FromBytes(content) != d.Digest {
+					err = fmt.Errorf("%d bytes that do not hash to the digest are served (read error %v)", len(content), rerr)
+				}
+			}
 			seen["blob "+string(d.Digest)] = err == nil
 			if err != nil {
-				*out = append(*out, "blob "+string(d.Digest)+" MISSING (referenced by "+string(dg)+")")
-			} else {
-				rb.Close()
+				*out = append(*out, "blob "+string(d.Digest)+" MISSING (referenced by "+string(dg)+"): "+err.Error())
 			}
 		}
 	case ocispec.MediaTypeImageIndex:
